@@ -137,6 +137,15 @@ func profLockstep(en *Env) {
 		batches := s%3 != 2 // every third script is batch-free (byte comparison)
 		sc := genScript(en, nkeys, vs, steps, batches)
 		u := h.SimpleKeys(nkeys, 6+en.R.Intn(6))
+		if s%3 == 0 {
+			// very long keys, all live, merged and restarted twice: the hint path must not depend on the index type
+			u = mergeKeys(en, nkeys, true)
+			for k := 1; k <= nkeys; k++ {
+				id, _ := vs.New(10 + en.R.Intn(50))
+				sc = append(sc, scriptStep{"Put", k, id, 0})
+			}
+			sc = append(sc, scriptStep{"Merge", 0, 0, 0}, scriptStep{"Restart", 0, 0, 0}, scriptStep{"Iterate", 0, 0, 0}, scriptStep{"Restart", 0, 0, 0})
+		}
 		var cfgs []h.Cfg
 		if en.Thorough() {
 			for _, ix := range h.IndexTypes {
